@@ -13,13 +13,32 @@
      acquire_resource               { lock queue; empty -> wait on the condvar (Waiting)
                                       | pop front; read discriminant (the item's tag) }
      woken waiter                   { relock queue; empty -> wait again | pop; read discriminant }
-     Drop / give_back_resource_pool_item
-                                    { reset the resource }  (local)
+     Drop / give_back_resource_pool_item / give_back_resource(new, g)
+                                    stop in the resource's reset callback, no lock held (GBReset)
+       then                         { reset the resource }  (local; stop at the yield point, GBPush)
        then give_back_resource      { lock queue; len >= size -> discard; discriminant <> tag -> discard
                                       | push back; notify_one }
-     compute_cache                  { lock queue; lock discriminant; += 1; clear }  (one section)
+       a discarded resource         is dropped after the queue lock is released: stop in its drop
+                                    callback (GBDiscard), then the operation ends
+     compute_cache                  { lock queue; lock discriminant; += 1; clear = drop every queued
+                                      resource, inside both locks }  (one section)
        then size x give_back_resource(new resource, new discriminant)
-     reset_available_resources      { lock queue; reset every queued resource }
+     clear_and_increment_discriminant alone: the same section, nothing after it
+     reset_available_resources      { lock queue; reset every queued resource, inside the lock }
+     clear                          { lock queue; drop every queued resource, inside the lock }
+     set_discriminant d             { lock discriminant; := d }
+
+   Callbacks.  The pool calls back into the pooled value: [Reset::reset] (give_back_resource, before
+   the queue lock; reset_available_resources, under the queue lock) and [Drop::drop] (the resources
+   drained by clear / clear_and_increment_discriminant, under the lock(s) held there; a resource
+   that give_back_resource does not push, after the queue lock has been released).  A callback
+   that runs while no pool lock is held is a point where every other thread can run: it ends the
+   step (pcs [GBReset], [GBDiscard]).  A callback under a lock is inside the critical section:
+   [step_cbs] lists, for every step, the callbacks it runs and the locks held around each.
+
+   Legacy / public entry points next to the provers' ones: clear, clear_and_increment_discriminant
+   alone, set_discriminant, give_back_resource of a resource built for an arbitrary generation and
+   tagged with it.
 
    Ghost data: [built_for] is the generation a resource was created for, [rid] identifies it,
    [dirty] says it was written to since its last reset. *)
@@ -37,10 +56,18 @@ Inductive pc :=
 | Waiting                                   (* blocked in not_empty.wait_timeout; queue lock released *)
 | Woken                                     (* notified (or spuriously woken): must relock and test again *)
 | Holding (r : res) (tag : N)               (* owns a ResourcePoolItem *)
-| GBPush (r : res) (tag : N) (c : cont).    (* give_back_resource after reset(), before taking the queue lock *)
+| GBReset (r : res) (tag : N) (c : cont)    (* give_back_resource: inside Reset::reset of the resource, no lock held *)
+| GBPush (r : res) (tag : N) (c : cont)     (* give_back_resource after reset(), before taking the queue lock *)
+| GBDiscard (r : res) (c : cont).           (* give_back_resource did not push: queue lock released, inside the
+                                               Drop of the discarded resource *)
 
 (* what the scheduler's step means for an idle thread / for a thread that holds an item *)
-Inductive ichoice := CiNone | CiAcquire | CiRefresh | CiReset.
+Inductive ichoice :=
+| CiNone | CiAcquire | CiRefresh | CiReset
+| CiClear                 (* clear() *)
+| CiBump                  (* clear_and_increment_discriminant() alone *)
+| CiSetDisc (d : N)       (* set_discriminant(d) *)
+| CiGive (g : N).         (* give_back_resource(new resource built for g, g) *)
 Inductive hchoice := ChNone | ChDrop | ChGiveItem | ChUse.
 
 Inductive ev :=
@@ -56,10 +83,11 @@ Definition use_res (r : res) : res := {| rid := rid r; built_for := built_for r;
 
 Definition set_queue (p : pool) (q : list res) : pool := {| disc := disc p; queue := q; size := size p |}.
 
-(* next give-back of a refresh: create the resource (fresh id), reset it, stop before the lock *)
+(* next give-back of a refresh: create the resource (fresh id), enter give_back_resource, stop in
+   its reset callback *)
 Definition start_fill (g k fresh : N) : pc * N :=
   if k =? 0 then (Idle, fresh)
-  else (GBPush {| rid := fresh; built_for := g; dirty := false |} g (CFill g (k - 1)), fresh + 1).
+  else (GBReset {| rid := fresh; built_for := g; dirty := false |} g (CFill g (k - 1)), fresh + 1).
 Definition after (c : cont) (fresh : N) : pc * N :=
   match c with CIdle => (Idle, fresh) | CFill g k => start_fill g k fresh end.
 
@@ -85,20 +113,52 @@ Definition step (p : pool) (fresh : N) (s : pc) (ci : ichoice) (ch : hchoice)
         let '(s', fresh') := start_fill g (size p) fresh in
         ({| disc := g; queue := []; size := size p |}, fresh', s', ONone, false)
     | CiReset => (set_queue p (map reset_res (queue p)), fresh, Idle, ONone, false)
+    | CiClear => (set_queue p [], fresh, Idle, ONone, false)
+    | CiBump => ({| disc := disc p + 1; queue := []; size := size p |}, fresh, Idle, ONone, false)
+    | CiSetDisc d => ({| disc := d; queue := queue p; size := size p |}, fresh, Idle, ONone, false)
+    | CiGive g => (p, fresh + 1, GBReset {| rid := fresh; built_for := g; dirty := false |} g CIdle, ONone, false)
     end
   | Waiting => (p, fresh, Waiting, ONone, false)
   | Woken => let '(p', s', o) := pop_or_wait p in (p', fresh, s', o, false)
   | Holding r tag =>
     match ch with
     | ChNone => (p, fresh, s, ONone, false)
-    | ChDrop | ChGiveItem => (p, fresh, GBPush (reset_res r) tag CIdle, ONone, false)
+    | ChDrop | ChGiveItem => (p, fresh, GBReset r tag CIdle, ONone, false)
     | ChUse => (p, fresh, Holding (use_res r) tag, ONone, false)
     end
+  | GBReset r tag c => (p, fresh, GBPush (reset_res r) tag c, ONone, false)
   | GBPush r tag c =>
-    let '(s', fresh') := after c fresh in
-    if is_full p then (p, fresh', s', ONone, false)
-    else if negb (disc p =? tag) then (p, fresh', s', ONone, false)
-    else (set_queue p (queue p ++ [r]), fresh', s', ONone, true)
+    if is_full p then (p, fresh, GBDiscard r c, ONone, false)
+    else if negb (disc p =? tag) then (p, fresh, GBDiscard r c, ONone, false)
+    else let '(s', fresh') := after c fresh in (set_queue p (queue p ++ [r]), fresh', s', ONone, true)
+  | GBDiscard r c => let '(s', fresh') := after c fresh in (p, fresh', s', ONone, false)
+  end.
+
+(* ---- callbacks: which Reset::reset / Drop::drop calls a step makes, and under which locks ---- *)
+Inductive cbkind := CbReset | CbDrop.
+Record cb := { cb_kind : cbkind; cb_rid : N; cb_qlock : bool; cb_dlock : bool }.
+Definition mkcb (k : cbkind) (ql dl : bool) (r : res) : cb :=
+  {| cb_kind := k; cb_rid := rid r; cb_qlock := ql; cb_dlock := dl |}.
+(* the callback in which the thread stops at the end of its step, if any (no lock held) *)
+Definition pc_cb (s : pc) : list cb :=
+  match s with
+  | GBReset r _ _ => [mkcb CbReset false false r]
+  | GBDiscard r _ => [mkcb CbDrop false false r]
+  | _ => []
+  end.
+Definition step_cbs (p : pool) (fresh : N) (s : pc) (ci : ichoice) (ch : hchoice) : list cb :=
+  let '(_, _, s', _, _) := step p fresh s ci ch in
+  match s with
+  | Idle =>
+    match ci with
+    | CiRefresh | CiBump => map (mkcb CbDrop true true) (queue p) ++ pc_cb s'
+    | CiClear => map (mkcb CbDrop true false) (queue p)
+    | CiReset => map (mkcb CbReset true false) (queue p)
+    | CiGive _ => pc_cb s'
+    | _ => []
+    end
+  | Waiting => []
+  | _ => pc_cb s'
   end.
 
 (* ---- global state: any number of threads ---- *)
@@ -171,7 +231,7 @@ Definition ev_thread (e : ev) : nat := match e with Step t _ _ _ | Timeout t | S
 Definition status_code (s : option pc) : N :=
   match s with
   | Some Idle => 0 | Some (Holding _ _) => 1 | Some (GBPush _ _ _) => 2
-  | Some Waiting => 3 | Some Woken => 4 | None => 9
+  | Some Waiting => 3 | Some Woken => 4 | Some (GBReset _ _ _) => 5 | Some (GBDiscard _ _) => 6 | None => 9
   end.
 Definition obs_out (o : out) : obs :=
   match o with
@@ -181,12 +241,29 @@ Definition obs_out (o : out) : obs :=
   end.
 (* the count is observed only when no wake-up is in flight (the implementation cannot stop a
    woken thread between its notification and its pop) *)
-Definition obs_event (e : ev) (x : gstate * out) : obs :=
+Definition gstep_cbs (s : gstate) (e : ev) : list cb :=
+  match e with
+  | Step t ci ch _ =>
+    match nth_error (ths s) t with
+    | Some c => step_cbs (pl s) (fresh_id s) c ci ch
+    | None => []
+    end
+  | _ => []
+  end.
+Fixpoint trace_cbs (s : gstate) (sched : list ev) : list (list cb) :=
+  match sched with
+  | [] => []
+  | e :: r => gstep_cbs s e :: trace_cbs (fst (gstep s e)) r
+  end.
+Definition obs_cb (c : cb) : obs :=
+  OL [ON (match cb_kind c with CbReset => 0 | CbDrop => 1 end); ON (cb_rid c); OB (cb_qlock c); OB (cb_dlock c)].
+Definition obs_event (e : ev) (x : gstate * out) (cbs : list cb) : obs :=
   let s := fst x in
   OL [ (if existsb is_woken (ths s) then OL [] else OL [ON (N.of_nat (length (queue (pl s))))]);
        ON (disc (pl s));
        ON (status_code (nth_error (ths s) (ev_thread e)));
-       obs_out (snd x) ].
+       obs_out (snd x);
+       OL (map obs_cb cbs) ].
 
 Fixpoint initial_queue (k : nat) (from : N) : list res :=
   match k with
@@ -197,7 +274,7 @@ Fixpoint initial_queue (k : nat) (from : N) : list res :=
 Definition run (sz : N) (n_init n_threads : nat) (sched : list ev) : obs :=
   let s0 := init sz (initial_queue n_init 1) n_threads in
   let tr := trace s0 sched in
-  OL [ OL (map (fun ex => obs_event (fst ex) (snd ex)) (combine sched tr));
+  OL [ OL (map (fun ex => obs_event (fst (fst ex)) (snd (fst ex)) (snd ex)) (combine (combine sched tr) (trace_cbs s0 sched)));
        OL (map (fun r => OL [ON (rid r); ON (built_for r)]) (queue (pl (exec s0 sched)))) ].
 
 (* ---- the pool calls made by the two provers (checked against the source text by the harness) ----
